@@ -166,9 +166,11 @@ type harnessResult struct {
 
 func run(c *cfg) int {
 	start := time.Now()
-	os.RemoveAll(c.outDir)
-	os.MkdirAll(c.outDir, 0o755)
-	os.MkdirAll(filepath.Dir(c.evidence), 0o755)
+	if c.replay == "" {
+		os.RemoveAll(c.outDir)
+		os.MkdirAll(c.outDir, 0o755)
+		os.MkdirAll(filepath.Dir(c.evidence), 0o755)
+	}
 	files, err := discover(c)
 	if err != nil {
 		return fail(c, "discover: "+err.Error())
